@@ -30,6 +30,11 @@ type MultiPassReader struct {
 
 func (r *MultiPassReader) Read(p []byte) (n int, err error) {
 	n, err = r.rs.Read(p)
+	if err == io.EOF && n > 0 {
+		// The last bytes of a pass came together with io.EOF. Hand them out alone: the next call gets (0, io.EOF) from
+		// the source, and an error of the rewind is then not attached to data, where readers that look at n first lose it.
+		return n, nil
+	}
 	if err == io.EOF {
 		r.passesCount++
 		if r.passesLimit <= 0 || r.passesCount < r.passesLimit {
